@@ -317,10 +317,16 @@ pub fn c12t(ctx: &Ctx, begin: &mut dyn FnMut(J)) -> Outcome {
     hooks::set_policy(policy, ctx.seed ^ ctx.case.wrapping_mul(977), !sanitizer_mode);
     let _ = hooks::take_trace();
     let sink = MemSink::new();
-    let res = wr::guard(|| -> Result<(), (String, J)> {
-        let (mut buf, mut writer): (TempFileBuffer<Dest>, TempFileBufferWriter<Dest>) = TempFileBuffer::new(inmemory);
-        let sizes2 = sizes.clone();
-        let producer = std::thread::spawn(move || -> Result<(), String> {
+    // The consumer runs on its own thread so that "await returns once the producer is done" can be
+    // judged as bounded progress: after the producer thread has been joined (its Drop completed),
+    // the consumer gets 10 s (it normally needs microseconds) before the run is declared stuck.
+    let sink2 = sink.clone();
+    let sizes2 = sizes.clone();
+    let (tx, rx) = std::sync::mpsc::channel::<Result<(), (String, J)>>();
+    let (ptx, prx) = std::sync::mpsc::channel::<Result<(), String>>();
+    let (mut buf, mut writer): (TempFileBuffer<Dest>, TempFileBufferWriter<Dest>) = TempFileBuffer::new(inmemory);
+    let producer = std::thread::spawn(move || {
+        let r = std::panic::catch_unwind(std::panic::AssertUnwindSafe(|| -> Result<(), String> {
             let mut written = 0u64;
             for s in sizes2 {
                 writer.write_all(&payload(written, s)).map_err(|e| e.to_string())?;
@@ -331,32 +337,72 @@ pub fn c12t(ctx: &Ctx, begin: &mut dyn FnMut(J)) -> Outcome {
             }
             drop(writer);
             Ok(())
-        });
-        if consumer_delay_us > 0 {
-            std::thread::sleep(std::time::Duration::from_micros(consumer_delay_us));
-        }
-        let dest = dk.make(&sink);
-        if use_len_path {
-            let l = buf.len().map_err(|e| ("len_error".to_string(), J::s(e.to_string())))?;
-            if l != total {
-                return Err(("len_wrong".into(), J::obj().set("len", l.into()).set("written", total.into())));
-            }
-            let mut dest = dest;
-            buf.expect_closed_write(&mut dest).map_err(|e| ("copy_error".to_string(), J::s(e.to_string())))?;
-            dest.flush().map_err(|e| ("flush_error".to_string(), J::s(e.to_string())))?;
-        } else {
-            buf.switch(dest);
-            // readiness may be polled at any time; it must never be true before the drop is traced
-            let _ = buf.is_real_file_ready();
-            let mut d = buf.await_real_file();
-            d.flush().map_err(|e| ("flush_error".to_string(), J::s(e.to_string())))?;
-        }
-        producer.join().map_err(|_| ("producer_panicked".to_string(), J::Null))?.map_err(|e| ("write_error".to_string(), J::s(e)))?;
-        match diff_stream(&sink.bytes(), total) {
-            None => Ok(()),
-            Some((c, d)) => Err((c, d)),
-        }
+        }));
+        let _ = ptx.send(r.unwrap_or_else(|_| Err("producer panicked".to_string())));
     });
+    let consumer = std::thread::spawn(move || {
+        let r = std::panic::catch_unwind(std::panic::AssertUnwindSafe(|| -> Result<(), (String, J)> {
+            if consumer_delay_us > 0 {
+                std::thread::sleep(std::time::Duration::from_micros(consumer_delay_us));
+            }
+            let dest = dk.make(&sink2);
+            if use_len_path {
+                let l = buf.len().map_err(|e| ("len_error".to_string(), J::s(e.to_string())))?;
+                if l != total {
+                    return Err(("len_wrong".into(), J::obj().set("len", l.into()).set("written", total.into())));
+                }
+                let mut dest = dest;
+                buf.expect_closed_write(&mut dest).map_err(|e| ("copy_error".to_string(), J::s(e.to_string())))?;
+                dest.flush().map_err(|e| ("flush_error".to_string(), J::s(e.to_string())))?;
+            } else {
+                buf.switch(dest);
+                let _ = buf.is_real_file_ready();
+                let mut d = buf.await_real_file();
+                d.flush().map_err(|e| ("flush_error".to_string(), J::s(e.to_string())))?;
+            }
+            Ok(())
+        }));
+        let _ = tx.send(r.unwrap_or_else(|_| Err(("consumer_panicked".to_string(), J::A(wr::take_panics().into_iter().map(J::S).collect())))));
+    });
+    let _ = wr::take_panics();
+    // producer first: it never blocks on the consumer
+    let pres = prx.recv_timeout(std::time::Duration::from_secs(60));
+    let _ = producer.join();
+    let res: Result<Result<(), (String, J)>, Vec<String>> = match pres {
+        Err(_) => Ok(Err(("producer_did_not_finish".into(), J::Null))),
+        Ok(Err(e)) => Ok(Err(("write_error".into(), J::s(e)))),
+        Ok(Ok(())) => match rx.recv_timeout(std::time::Duration::from_secs(10)) {
+            Ok(Ok(())) => {
+                let _ = consumer.join();
+                Ok(match diff_stream(&sink.bytes(), total) {
+                    None => Ok(()),
+                    Some((c, d)) => Err((c, d)),
+                })
+            }
+            Ok(Err(e)) => {
+                let _ = consumer.join();
+                Ok(Err(e))
+            }
+            Err(_) => {
+                // definite verdict: the producer's Drop has completed (its thread was joined) and the
+                // waiting call still has not returned. The stuck thread cannot be reclaimed: report and
+                // leave the process (exit code 78 = "deliberate exit after a verdict").
+                hooks::set_policy(0, 0, false);
+                let tr = hooks::take_trace();
+                let (sig, handoff) = signature(&tr);
+                let mut out = Outcome::new();
+                out.hash = format!("{}|{}|{}", sig, inmemory, handoff);
+                out.nontrivial = true;
+                out.viol(
+                    "wait_did_not_return_after_producer_finished",
+                    format!("{}:{}", if inmemory { "inmemory" } else { "tempfile" }, if use_len_path { "len_then_copy" } else { "await_real_file" }),
+                    J::obj().set("interleaving", J::s(sig)).set("waited_s", 10u64.into()),
+                );
+                crate::proto::emit_end(ctx.case, &out);
+                std::process::exit(78);
+            }
+        },
+    };
     hooks::set_policy(0, 0, false);
     let tr = hooks::take_trace();
     let (sig, handoff) = signature(&tr);
